@@ -43,9 +43,11 @@ func (w *World) checkNode(n *Node, st *State, phase string) {
 	if w.stop {
 		return
 	}
-	if n.pol != nil && w.opt.Property == "C13" {
-		// the predicted size must match what WriteTo produces in EVERY state, not only
-		// when a snapshot happens to be taken
+	if n.pol != nil && w.opt.Property == "C13" && mix64(seed^0x512e)%10 < 3 {
+		// the predicted size must match what WriteTo produces in any state, not only
+		// when a snapshot happens to be taken (asked after a seeded 30 % of the
+		// events, so that both "asked in every state" and "asked again only after
+		// several changes" occur: a stale answer needs the second)
 		w.count("serialize_size")
 		var sz int
 		var cnt int64
